@@ -113,6 +113,7 @@ def stepCb (ts : List String) : String :=
         | .collided => "collided"
         | .unmatched => "unmatched"
         | .invalidUncle => "invalid-uncle"
+        | .invalidHeader => "invalid-header"
   | _ => "bad-op"
 
 def stepFrame (ts : List String) : String :=
